@@ -899,6 +899,28 @@ fn judge(
             };
             for (name, bytes) in &old.files {
                 if produced.contains(name) {
+                    // a pack file of the old container under a name the new creation also
+                    // produces: the old file or a complete new one (each arrives by one rename) -
+                    // never nothing, never a part of a file, while the old entry point refers to it
+                    if *name != format!("{NAME}.jbk") {
+                        match std::fs::read(case_dir.join(name)) {
+                            Ok(b) if b == *bytes => {}
+                            Ok(b) => {
+                                if let Err(e) = layout::complete(&b) {
+                                    return (
+                                        Some(format!("the old container is still at the destination but the pack file {name} beside it is neither the old one nor a complete new one: {e}")),
+                                        "bad",
+                                    );
+                                }
+                            }
+                            Err(_) => {
+                                return (
+                                    Some(format!("the old container is still at the destination but its pack file {name} is gone")),
+                                    "bad",
+                                )
+                            }
+                        }
+                    }
                     continue;
                 }
                 match std::fs::read(case_dir.join(name)) {
@@ -1192,7 +1214,7 @@ pub fn parent_main(args: &Args) -> ! {
     );
     ev.assumptions.push("crash = process termination (not power loss): the kernel file system state after the child ended is exactly what survives".into());
     ev.assumptions.push("creation with one compression worker and homogeneous hints performs a deterministic sequence of output operations (asserted: two fault-free runs must agree, else harness error)".into());
-    ev.assumptions.push("an old entry point next to a newer pack file is accepted as 'still holds the previous complete file' (identity of packs by uuid is C11's subject)".into());
+    ev.assumptions.push("an old entry point next to a newer COMPLETE pack file is accepted as 'still holds the previous complete file' (identity of packs by uuid is C11's subject); next to a missing or partial pack file it is not".into());
     ev.violations = violations.len() as u64;
     let mut seen = std::collections::BTreeSet::new();
     for (sig, r) in &violations {
